@@ -117,6 +117,7 @@ class World:
         self.name, self.terms, self.denom = name, terms, denom
         self.groups = groups or ["g"] * len(terms)
         self.invalid = set(invalid)
+        self.alias = {}     # monomials that are equal in value (renamed contracted indices) but counted as separate terms
 
     def term(self, i):
         return lin_of(*self.terms[i])
@@ -146,7 +147,7 @@ class World:
                 return self.permuted(int(recv.args[0][1:]), [perm_labels(p) for p in f.args[2]])
         raise Uninterpreted(show(f))
 
-    def lin(self, x):
+    def lin(self, x, syntactic=False):
         x = strip(x, VALUE_CALLS, VALUE_MCALLS, VALUE_ATTRS)
         out = {}
         for c, fs in expand_products(x):
@@ -156,6 +157,11 @@ class World:
                 out = lin_add(out, self.factor_lin(fs[0]), c)
             else:
                 raise Uninterpreted(show(x))
+        if self.alias and not syntactic:
+            out2 = {}
+            for k, v in out.items():
+                out2 = lin_add(out2, {self.alias.get(k, k): v})
+            out = out2
         return out
 
 
@@ -183,7 +189,7 @@ def make_oracle(world_of):
                 if atom.args[0] == "==":
                     for x, y in ((a, b), (b, a)):
                         if isinstance(x, T) and x.op == "call" and x.args[0] == "len" and isinstance(y, int):
-                            return max(1, len(w.lin(x.args[1][0]))) == y
+                            return max(1, len(w.lin(x.args[1][0], syntactic=True))) == y
             if atom.op == "attr" and atom.args[1] == "is_number":
                 return set(w.lin(atom.args[0])) <= {"1"}
             if atom.op == "attr" and atom.args[1] == "is_zero":
@@ -878,6 +884,345 @@ def r10c_obj_symmetry(ctx):
               "Obj.symmetry accepts only_contracted together with only_target", key="Obj.symmetry guard")
 
 
+# ------------------------------------------------------------------------------------------ LazyTermMap
+def _sym_inline(q):
+    return q.startswith("symmetry:")
+
+
+def _probe_worlds():
+    """(world, permutations, factor, rule, note)"""
+    A, B, C = (lambda l: F("A", "", l, "plain")), (lambda l: F("B", "", l, "plain")), (lambda l: F("C", "", l, "plain"))
+    pair = [(1, (X("a", "i"), Z("b", "j"))), (-1, (X("a", "j"), Z("b", "i")))]
+    four = [(1, (X("a", "i"), Z("b", "j"))), (-1, (X("a", "j"), Z("b", "i"))), (-1, (X("b", "i"), Z("a", "j"))), (1, (X("b", "j"), Z("a", "i")))]
+    cyc = [(1, (A("i"), B("j"), C("k"))), (1, (A("k"), B("i"), C("j"))), (1, (A("j"), B("k"), C("i")))]
+    return [
+        (World("pair", pair), ("ij",), -1, "R10d", "two terms exchanged by P_ij"),
+        (World("pair-denom", pair, denom=True), ("ij",), -1, "R10d", "terms with a denominator"),
+        (World("four", four), ("ij",), -1, "R10d", "ia/ja/ib/jb under P_ij"),
+        (World("four", four), ("ij", "ab"), +1, "R10d", "ia/ja/ib/jb under P_ij P_ab"),
+        (World("cycle", cyc), ("ij", "ik"), +1, "R10d", "three-cycle: the map differs from its inverse"),
+        (World("cycle", cyc), ("ik", "ij"), +1, "R10d", "the inverse three-cycle"),
+        (World("cycle-minus", [cyc[0], (-1, cyc[1][1]), cyc[2]]), ("ij", "ik"), -1, "R10d", "three-cycle with signs"),
+        (World("wrong-sign-anti", [pair[0], (1, pair[1][1])]), ("ij",), -1, "R10a", "P X = +X' probed with the factor -1"),
+        (World("wrong-sign-sym", pair), ("ij",), +1, "R10a", "P X = -X' probed with the factor +1"),
+        (World("sym", [pair[0], (1, pair[1][1])]), ("ij",), +1, "R10d", "P X = +X' probed with the factor +1"),
+        (World("twice-antisymmetric", [(1, (F("V", "ab", "ij"),)), (1, (F("V", "ab", "ij"),))]), ("ij",), -1, "R10a",
+         "a term with P X = -X listed twice needs no partner under the factor -1"),
+        (World("twice-symmetric", [(1, (F("W", "ab", "ij", "sym"),)), (1, (F("W", "ab", "ij", "sym"),))]), ("ij",), +1, "R10a",
+         "a term with P X = +X listed twice needs no partner under the factor +1"),
+        (World("symmetric-and-negative", [(1, (F("W", "ab", "ij", "sym"),)), (-1, (F("W", "ab", "ij", "sym"),))]), ("ij",), -1, "R10a",
+         "P X = +X = -X' under the factor -1"),
+        (World("self", [(1, (F("V", "ab", "ij"),)), pair[0], pair[1]], invalid=[(2, (("a", "b"),))]), ("ij",), -1, "R10d",
+         "an antisymmetric term next to a pair"),
+        (World("self", [(1, (F("V", "ab", "ij"),)), pair[0], pair[1]], invalid=[(2, (("a", "b"),))]), ("ab",), -1, "R10d",
+         "a permutation annihilating one term"),
+        (World("groups", [pair[0], (1, (F("Q", "ab", "ij", "plain"),)), pair[1], (-1, (F("Q", "ab", "ji", "plain"),)), (1, (F("R", "ab", "ij"),))],
+               groups=["g", "q", "g", "q", "r"]), ("ij",), -1, "R10d", "two classes of terms and a unique term"),
+    ]
+
+
+def _expected_map(w, perms, f):
+    pl = [tuple(p) for p in perms]
+    out = {}
+    n = len(w.terms)
+    for i in range(n):
+        img = w.permuted(i, pl)
+        if not img and w.term(i):
+            continue
+        if img == lin_add({}, w.term(i), f):
+            continue
+        for j in range(n):
+            if j != i and w.groups[j] == w.groups[i] and img == lin_add({}, w.term(j), f):
+                out[i] = j
+                break
+    return out
+
+
+def _termmap_self(w, labels="ijkab"):
+    ix = {x: index(x, "occ" if x in "ijkl" else "virt") for x in labels}
+    groups = {}
+    for i, g in enumerate(w.groups):
+        groups.setdefault(g, []).append(i)
+    pres = tuple((w.denom, list(v)) for v in groups.values() if len(v) > 1)
+    me = Obj("symmetry:LazyTermMap", "self")
+    me.attrs.update(_terms=tuple(term_objs(len(w.terms))), _term_map={}, target_indices=tuple(ix[x] for x in labels),
+                    _prescan_terms=lambda sx, a, kw: pres, _expr=Obj(None, "expr", provided_target_idx=None))
+    return me, ix
+
+
+def r10_probe_symmetry(ctx):
+    fn = ctx.model.fn("symmetry:LazyTermMap.probe_symmetry")
+    hooks = {"permute": h_permute, "factor_eri_parts": h_parts, "factor_denom": h_parts}
+    n = 0
+    for w, perms, f, rule, note in _probe_worlds():
+        if not ctx.want(rule):
+            continue
+        box = {}
+
+        def mk(w=w, perms=perms, f=f, box=box):
+            me, ix = _termmap_self(w)
+            box["self"] = me
+            box["perms"] = tuple((ix[p[0]], ix[p[1]]) for p in perms)
+            return dict(self=me, permutations=box["perms"], sym_factor=f)
+        what = f"probe_symmetry[{w.name}: {note}; {' '.join('P_' + p for p in perms)}, factor {f:+d}]"
+        sx = Symex(ctx.model, inline=_sym_inline, hooks=hooks, what=what, oracle=make_oracle(lambda w=w: w), max_paths=64)
+        o = one_return(ctx, rule, fn, sx.run(fn, mk), what, key=f"{w.name} {perms} {f} shape")
+        if o is None:
+            continue
+        exp = _expected_map(w, perms, f)
+        n += 1
+        ctx.check(rule, fn, o.value == exp, f"{what}: map {exp} = {{i: j | P t_i = {f:+d} t_j}}",
+                  f"{what}: returns the map {show(o.value)[:200]}; in this world P t_i = {f:+d} t_j holds exactly for {exp}"
+                  + (" (the returned map belongs to the inverse permutation)" if isinstance(o.value, dict) and
+                     o.value == {j: i for i, j in exp.items()} and exp else ""), key=f"{w.name} {perms} {f} map")
+        if rule == "R10d":
+            stored = box["self"].attrs["_term_map"]
+            k = (tuple(box["perms"]), f)
+            ctx.check(rule, fn, list(stored) == [k] and stored[k] == o.value, f"{what}: stored under (permutations, factor)",
+                      f"{what}: the term map cache holds {show(stored)[:200]} instead of the map under (permutations, {f})",
+                      key=f"{w.name} {perms} {f} store")
+    if ctx.want("R10d"):
+        ctx.floor("R10d", "worlds of probe_symmetry evaluated", n, 10)
+        w = _probe_worlds()[0][0]
+
+        def mk_bad(kind):
+            def mk():
+                me, ix = _termmap_self(w)
+                if kind == "non-target":
+                    return dict(self=me, permutations=((ix["i"], index("m", "occ")),), sym_factor=-1)
+                return dict(self=me, permutations=((ix["i"], ix["j"]),), sym_factor=2)
+            return mk
+        for kind in ("non-target", "factor"):
+            sx = Symex(ctx.model, inline=_sym_inline, hooks=hooks, what="probe_symmetry", oracle=make_oracle(lambda: w), max_paths=64)
+            outs = sx.run(fn, mk_bad(kind))
+            ctx.check("R10d", fn, bool(outs) and all(o.kind == "raise" for o in outs),
+                      "permutations of non-target indices refused" if kind == "non-target" else "symmetry factors other than +-1 refused",
+                      "probe_symmetry accepts a permutation with a non-target index" if kind == "non-target" else
+                      "probe_symmetry accepts the symmetry factor 2", key=f"probe guard {kind}")
+
+
+def r10c_evaluate(ctx):
+    rule = "R10c"
+    fn = ctx.model.fn("symmetry:LazyTermMap.evaluate")
+    w = _probe_worlds()[0][0]
+    for anti in (True, False):
+        scen = _ExploitScen(w, {("ij",): -1})
+        box = {}
+
+        def mk(anti=anti, box=box):
+            me, ix = _termmap_self(w, "ijab")
+            me.attrs["_term_map"] = {"marker": 1}
+            box["self"], box["ix"] = me, ix
+            return dict(self=me, antisymmetric_result_tensor=anti)
+        sx = Symex(ctx.model, inline=lambda q: q == "symmetry:LazyTermMap.evaluate", hooks=scen.hooks(), what="evaluate")
+        sx.on_start = scen.reset
+        what = f"LazyTermMap.evaluate({'anti' if anti else ''}symmetric result)"
+        o = one_return(ctx, rule, fn, sx.run(fn, mk), what, key=f"evaluate {anti} shape")
+        if o is None:
+            continue
+        if len(scen.sym_calls) != 1:
+            ctx.bad(rule, fn, f"{what}: the symmetry of {len(scen.sym_calls)} probe tensors is requested", key=f"evaluate {anti} count")
+            continue
+        rec, a2, kw2 = scen.sym_calls[0]
+        tg = box["self"].attrs["target_indices"]
+        slots = sorted([tuple(rec.attrs["upper"]), tuple(rec.attrs["lower"])], key=len)
+        ok = rec.attrs["tensor_class"] == ("AntiSymmetricTensor" if anti else "SymmetricTensor") and slots[0] == () and \
+            len(slots[1]) == len(tg) and all(x is y for x, y in zip(slots[1], tg)) and rec.attrs["bra_ket_sym"] == 0 and \
+            not kw2.get("only_contracted") and not a2
+        ctx.check(rule, fn, ok, f"{what}: probes a tensor with all target indices in one slot",
+                  f"{what}: probes {rec.attrs['tensor_class']}(upper {show(rec.attrs['upper'])}, lower {show(rec.attrs['lower'])}, "
+                  f"bra_ket_sym {rec.attrs['bra_ket_sym']}); expected the {'anti' if anti else ''}symmetric tensor over the target indices "
+                  f"{show(tg)}", key=f"evaluate {anti}")
+        ctx.check(rule, fn, o.value is box["self"].attrs["_term_map"], f"{what}: returns the term map",
+                  f"{what}: returns {show(o.value)[:100]}", key=f"evaluate {anti} return")
+
+
+# ------------------------------------------------------------------------------------------ Permutation objects
+def r10d_permutation(ctx):
+    rule = "R10d"
+    fn = ctx.model.fn("symmetry:Permutation.__new__")
+    key = lambda x: (x.attrs["space"], x.attrs["spin"], x.attrs["name"])   # noqa: E731
+    hooks = {"sort_idx_canonical": lambda sx, a, kw: key(a[0])}
+    ix = dict(i=("i", "occ", ""), j=("j", "occ", ""), a=("a", "virt", ""), ia=("ia", "occ", "a"), ib=("ib", "occ", "b"), p=("p", "general", ""))
+    for x, y in (("i", "j"), ("a", "i"), ("ia", "ib"), ("p", "a"), ("j", "ia")):
+        res = []
+        for first, second in ((x, y), (y, x)):
+            sx = Symex(ctx.model, inline=_sym_inline, hooks=hooks, what="Permutation")
+            outs = sx.run(fn, lambda: dict(cls=sym("cls"), p=index(*ix[first]), q=index(*ix[second])))
+            o = one_return(ctx, rule, fn, outs, f"Permutation({first}, {second})", key=f"perm {first} {second} shape")
+            v = o.value if o is not None else None
+            payload = None
+            if isinstance(v, T) and v.op == "mcall" and v.args[1] == "__new__" and v.args[2]:
+                payload = v.args[2][-1]
+            res.append(payload)
+        lo, hi = sorted((x, y), key=lambda k: (ix[k][1], ix[k][2], ix[k][0]))
+        # records are frozen to their names: rebuild the expected pair through the same naming
+        exp = (sym(index(*ix[lo]).name), sym(index(*ix[hi]).name))
+        ok = res[0] is not None and res[0] == res[1] and res[0] == exp
+        ctx.check(rule, fn, ok, f"Permutation({x}, {y}) = Permutation({y}, {x}) = canonical pair ({lo}, {hi})",
+                  f"Permutation({x}, {y}) holds {show(res[0])}, Permutation({y}, {x}) holds {show(res[1])}; both must be the pair "
+                  f"({lo}, {hi}) in canonical order", key=f"perm canonical {x} {y}")
+
+
+def _ref_product(perms, cls_of):
+    """Reference: permutations of linked classes keep their order, the groups are ordered by their sorted class names."""
+    parent = {}
+
+    def find(x):
+        parent.setdefault(x, x)
+        while parent[x] != x:
+            x = parent[x]
+        return x
+    for p, q in perms:
+        a, b = find(cls_of[p]), find(cls_of[q])
+        if a != b:
+            parent[a] = b
+    comp = {}
+    for c in list(parent):
+        comp.setdefault(find(c), set()).add(c)
+    groups = {}
+    for p, q in perms:
+        k = "".join(sorted(comp[find(cls_of[p])]))
+        groups.setdefault(k, []).append((p, q))
+    return [x for k in sorted(groups) for x in groups[k]]
+
+
+def r10d_product(ctx):
+    rule = "R10d"
+    fn = ctx.model.fn("symmetry:PermutationProduct.__new__")
+    cls_of = dict(i="o", j="o", k="o", a="v", b="v", c="v", p="g", q="g", I="oa", J="oa", K="ob", L="ob")
+    full = dict(o=("occ", ""), v=("virt", ""), g=("general", ""), oa=("occ", "a"), ob=("occ", "b"))
+    inputs = ["ab ij", "ij ab", "ik ij", "ij ik", "ab ik cb ij", "ik ab ij cb", "ab ia ij", "ij ia ab", "pq ab ia ij", "ab pq ij", "KL ab IJ ij",
+              "IJ KL", "KL IJ", "ab ia ij pq bc", "ij"]
+    mod = ctx.model.module("symmetry")
+    n = 0
+    for text in inputs:
+        perms = [tuple(w_) for w_ in text.split()]
+
+        def mk(perms=perms):
+            pool = {}
+
+            def ix(x):
+                if x not in pool:
+                    pool[x] = index(x, *full[cls_of[x]])
+                return pool[x]
+            return dict(cls=ClassRef(mod, "PermutationProduct"), args=tuple((ix(p), ix(q)) for p, q in perms))
+        sx = Symex(ctx.model, inline=_sym_inline, hooks={}, what="PermutationProduct")
+        o = one_return(ctx, rule, fn, sx.run(fn, mk), f"PermutationProduct({text})", key=f"product {text} shape")
+        if o is None:
+            continue
+        v = o.value
+        payload = v.args[2][-1] if isinstance(v, T) and v.op == "mcall" and v.args[1] == "__new__" and v.args[2] else None
+        try:
+            got = [perm_labels(x) for x in payload]
+        except (Uninterpreted, TypeError):
+            got = None
+        exp = _ref_product(perms, cls_of)
+        n += 1
+        ctx.check(rule, fn, got == exp, f"PermutationProduct({text}) = {' '.join(map(''.join, exp))}",
+                  f"PermutationProduct({text}) holds {' '.join(map(''.join, got)) if got is not None else show(v)[:200]}; permutations of linked "
+                  f"spaces keep their order and independent groups are ordered canonically: {' '.join(map(''.join, exp))}",
+                  key=f"product {text}")
+    ctx.floor(rule, "permutation products evaluated", n, 12)
+
+
+# ------------------------------------------------------------------------------------------ denom_eri_sym, _compare_remainder
+def r10a_denom(ctx):
+    rule = "R10a"
+    fn = ctx.model.fn("eri_orbenergy:EriOrbenergy.denom_eri_sym")
+    # D = (e_j - e_k)-like bracket: odd under P_jk, untouched by P_ab / P_bc, changed by P_ij, annihilated by P_jl (declared)
+    w = World("denominator", [(1, (F("D", "", "jk"),))], invalid=[(0, (("j", "l"),))])
+    eri_sym = {("jk",): 1, ("jk", "ab"): -1, ("ab",): -1, ("bc",): 1, ("ij",): 1, ("ij", "ab"): -1, ("jl",): 1, ("ik", "ij"): -1}
+    exp = {("jk",): -1, ("jk", "ab"): 1, ("ab",): -1, ("bc",): 1, ("ij",): None, ("ij", "ab"): None, ("ik", "ij"): None}
+    SYM = {("ab",): -1}
+    box = {}
+
+    def me(number=False, eri_idx=("a",)):
+        box.clear()
+
+        def symmetry(sx, a, kw):
+            box["call"] = (tuple(a), dict(kw))
+            return dict(SYM)
+        from ..terms import t_mul
+        d = Obj(None, "t0", sympy=t_mul(2, ONE) if number else T("attr", sym("t0"), "sympy"))
+        o = Obj("eri_orbenergy:EriOrbenergy", "self")
+        o.attrs.update(denom=d, eri=Obj(None, "eri", idx=tuple(eri_idx), symmetry=symmetry))
+        return o
+    mk_sx = lambda: Symex(ctx.model, inline=lambda q: False, hooks={"permute": h_permute}, what="denom_eri_sym",   # noqa: E731
+                          oracle=make_oracle(lambda: w))
+    o = one_return(ctx, rule, fn, mk_sx().run(fn, lambda: dict(self=me(), eri_sym=dict(eri_sym))), "denom_eri_sym", key="denom shape")
+    if o is not None:
+        v = o.value if isinstance(o.value, dict) else {}
+        for perms, f in eri_sym.items():
+            name = " ".join("P_" + p for p in perms)
+            how = "annihilates D" if perms not in exp else {1: "P D = +D", -1: "P D = -D", 0: "P D is another bracket"}[
+                0 if exp[perms] is None else exp[perms] * f]
+            if perms not in exp:
+                ctx.check(rule, fn, perms not in v, f"denom_eri_sym: {name} ({how}) is omitted",
+                          f"denom_eri_sym reports {v.get(perms)} for {name} although the permutation annihilates the denominator",
+                          key=f"denom {name}")
+            else:
+                ctx.check(rule, fn, perms in v and v[perms] == exp[perms] and type(v[perms]) is type(exp[perms]),
+                          f"denom_eri_sym: {name} with ERI factor {f:+d}, {how} -> {exp[perms]}",
+                          f"denom_eri_sym reports {v.get(perms, 'nothing')} for {name} (ERI factor {f:+d}, {how}); the common symmetry of "
+                          f"remainder and denominator is {exp[perms]}", key=f"denom {name}")
+    # numeric denominator: the symmetry of the remainder is the answer
+    o = one_return(ctx, rule, fn, mk_sx().run(fn, lambda: dict(self=me(number=True), eri_sym=dict(eri_sym))), "denom_eri_sym[number]",
+                   key="denom number shape")
+    if o is not None:
+        ctx.check(rule, fn, o.value == eri_sym, "denom_eri_sym: numeric denominator -> symmetry of the remainder unchanged",
+                  f"denom_eri_sym with a numeric denominator returns {show(o.value)[:200]}", key="denom number")
+    for number in (True, False):
+        o = one_return(ctx, rule, fn, mk_sx().run(fn, lambda: dict(self=me(number=number), kwargs={"only_contracted": True})),
+                       "denom_eri_sym[on the fly]", key=f"denom fly shape {number}")
+        if o is not None:
+            a, kw = box.get("call", ((), {}))
+            want = dict(SYM) if number else {("ab",): -1}
+            ctx.check(rule, fn, o.value == want and kw == {"only_contracted": True} and not a,
+                      "denom_eri_sym: the symmetry of the remainder is determined with the forwarded restriction",
+                      f"denom_eri_sym without eri_sym returns {show(o.value)[:120]} from symmetry{a}{kw}", key=f"denom fly {number}")
+    outs = mk_sx().run(fn, lambda: dict(self=me(eri_idx=()), kwargs={}))
+    ctx.check(rule, fn, bool(outs) and all(o.kind == "raise" for o in outs), "denom_eri_sym: remainder without indices refused",
+              "denom_eri_sym accepts a remainder without indices and no given symmetry", key="denom guard")
+
+
+def r10a_compare_remainder(ctx):
+    rule = "R10a"
+    ref = "factor_intermediates:_compare_remainder"
+    if not ctx.model.has_fn(ref):
+        raise AnalysisError("anchor function factor_intermediates:_compare_remainder not found")
+    fn = ctx.model.fn(ref)
+    R = (X("a", "i"), Z("b", "j"))
+    R2 = (X("a", "k"), Z("b", "j"))      # the same remainder with another name of a contracted index
+    Q = (Z("a", "i"), Z("b", "j"))
+    from ..terms import summands
+    # (name, terms t0 = remainder, t1 = reference, relabelling, eri parts split, denominators split, expected)
+    cases = [("identical", (1, R), (1, R), False, False, False, 1), ("negated", (-1, R), (1, R), False, False, False, -1),
+             ("equal up to contracted names", (1, R2), (1, R), True, False, False, 1),
+             ("negated up to contracted names", (-1, R2), (1, R), True, False, False, -1),
+             ("different objects", (1, Q), (1, R), False, True, False, None),
+             ("different denominators", (1, R2), (1, R), False, False, True, None)]
+    for name, t0, t1, alias, split_eri, split_den, want in cases:
+        w = World(name, [t0, t1])
+        if alias:
+            w.alias = {mono_canon(R2)[1]: mono_canon(R)[1]}
+
+        def mk():
+            ix = tuple(index(x, "occ") for x in "ij")
+            r = Obj(None, "t0", sympy=T("attr", sym("t0"), "sympy"), terms=[Obj(None, "t0.term", target=ix)])
+            q = Obj(None, "t1", sympy=T("attr", sym("t1"), "sympy"), terms=[Obj(None, "t1.term", target=ix)])
+            return dict(remainder=r, ref_remainder=q, itmd_indices=(index("a", "virt"), index("b", "virt")))
+        hooks = {"factor_eri_parts": (lambda sx, a, kw: summands(a[0])) if split_eri else h_parts,
+                 "factor_denom": (lambda sx, a, kw: summands(a[0])) if split_den else h_parts}
+        sx = Symex(ctx.model, inline=lambda q: False, hooks=hooks, what="_compare_remainder", oracle=make_oracle(lambda w=w: w))
+        what = f"_compare_remainder[{name}]"
+        o = one_return(ctx, rule, fn, sx.run(fn, mk), what, key=f"remainder {name} shape")
+        if o is None:
+            continue
+        ctx.check(rule, fn, o.value == want and type(o.value) is type(want), f"{what} -> {want}",
+                  f"{what} returns {show(o.value)}, the factor that maps the remainder onto the reference is {want}", key=f"remainder {name}")
+
+
 def run(ctx):
     if ctx.want("R10b"):
         r10b_partitions(ctx)
@@ -889,6 +1234,16 @@ def run(ctx):
         r10c_obj_symmetry(ctx)
     if ctx.want("R10a") or ctx.want("R10c"):
         r10_term_symmetry(ctx)
+    if ctx.want("R10a") or ctx.want("R10d"):
+        r10_probe_symmetry(ctx)
+    if ctx.want("R10a"):
+        r10a_denom(ctx)
+        r10a_compare_remainder(ctx)
+    if ctx.want("R10c"):
+        r10c_evaluate(ctx)
+    if ctx.want("R10d"):
+        r10d_permutation(ctx)
+        r10d_product(ctx)
 
 
 def run_thorough(ctx):
